@@ -48,13 +48,15 @@ ASSUMPTIONS = [
     "metrics (MVAR): 1.5 + sum|scalar|*0.5 over the instanced MVAR regions; hasc/hdsc/hlgp only when HarfBuzz reads them from the table MVAR is defined on",
     "shaping: identical glyph sequences unless the original itself changes sequence within K steps of the location (feature-variation boundary); "
     "positions within the advance budget + 6 x (1.5 + sum|scalar|*0.5 over the instanced GDEF store regions)",
+    "second route: fully pinned cases are also instanced by varLib.mutator.instantiateVariableFont (single rounding: glyph 0.5, +0.5 in x for a varying left phantom "
+    "point, CFF2 operand 0.5, advances/metrics 1.5); avar2 and VARC fonts are outside that module's documented scope",
     "limits that the API rejects with NotImplementedError (VARC axes, nested CFF2 blends) are 'precondition not met'; when updateFontNames raises its documented "
     "ValueError (STAT lacks axis values) the case is repeated without it; downgradeCFF2 only when all axes are pinned",
     "avar2 fonts: partial instancing keeps the variation tables in the old space and compensates through the avar2 VarStore with a residual the library itself "
     "bounds only heuristically (_AVAR2_OFFSET_WARN_THRESHOLD = 8 F2Dot14 units); such cases are judged at all sampled locations with K=8 steps "
     "(that threshold; measured errors on the corpus avar2 font stay below 0.07 units); fully pinned avar2 instances use K = the observed difference between the library's normalised pins and HarfBuzz's (capped at 8)",
 ]
-REQUIRED_MONITORS = ["instantiateVariableFont", "AxisLimits.normalize", "rebaseTent", "instantiateTupleVariationStore",
+REQUIRED_MONITORS = ["instantiateVariableFont", "mutator.instantiateVariableFont", "AxisLimits.normalize", "rebaseTent", "instantiateTupleVariationStore",
                      "_instantiateGvarGlyph", "instantiateItemVariationStore", "instantiateHVAR", "instantiateMVAR",
                      "instantiateOTL", "instantiateCFF2", "instantiateAvar", "instantiateFvar", "instantiateSTAT",
                      "instantiateFeatureVariations"]
@@ -136,6 +138,9 @@ def setup():
         _cur["tvs_calls"] += 1
 
     hooks.attach(instancer, "instantiateVariableFont", name="instantiateVariableFont")
+    from fontTools.varLib import mutator
+
+    hooks.attach(mutator, "instantiateVariableFont", name="mutator.instantiateVariableFont")
     hooks.attach(instancer.AxisLimits, "normalize", post=post_norm, name="AxisLimits.normalize")
     hooks.attach(solver, "rebaseTent", post=post_rebase, name="rebaseTent")
     hooks.attach(instancer, "instantiateTupleVariationStore", post=post_tvs, name="instantiateTupleVariationStore")
@@ -246,7 +251,8 @@ def _original(case, ctx):
             "tables": sorted(font.keys()), "composites": _composites(font),
             "hvar_map": None, "mvar": None, "typo_ok": _typo_consistent(font),
             "varc": "VARC" in font, "repairs": repairs, "phantom_var": _phantom_var(font), "lsb_not_xmin": _lsb_not_xmin(font),
-            "twin_axes": twin_axes, "shadowed_pair_subtables": ndup}
+            "twin_axes": twin_axes, "shadowed_pair_subtables": ndup,
+            "use_typo_bit": "OS/2" in font and font["OS/2"].version >= 4 and bool(font["OS/2"].fsSelection & 0x80)}
     if "HVAR" in font:
         hv = font["HVAR"].table
         m = hv.AdvWidthMap.mapping if hv.AdvWidthMap else None
@@ -854,6 +860,8 @@ def run_case(case, ctx):
                                   "text gids %s at %s: positions differ by %d (budget %.2f)" % ([c - corpus.PUA for c in t][:12], x or "(static)", d, tol),
                                   dict(witness, location=x, original_location=uo, hb_norm_original=nO, hb_norm_instance=nI,
                                        original=a[:8], instance=b[:8]))
+    if full and not info["avar2"] and not info["varc"] and ({"gvar", "CFF2"} & O.tags):
+        _mutator_route(case, ctx, info, O, pinned, steps, gids, texts, is_cff, order, witness)
     for kk, n in stage.items():
         ctx.note("outline-compare:" + kk, n)
     ctx.note("locations", len(locs))
@@ -873,6 +881,130 @@ def run_case(case, ctx):
         ctx.note("gen:twin-feature-variation-rules")
     if info["shadowed_pair_subtables"]:
         ctx.note("gen:shadowed-format1-pair-subtable")
+
+
+def _mutator_route(case, ctx, info, O, pinned, steps, gids, texts, is_cff, order, witness):
+    """Second instancing route: the (deprecated, still shipped) varLib.mutator.instantiateVariableFont produces a
+    static font at a user-space location; it must agree with the source font at that location just like the
+    instancer's full instance.  One rounding only: glyph 0.5 (+0.5 in x when the left phantom point varies: lsb),
+    per CFF2 operand 0.5, advances / metrics / kerning values 0.5 + HarfBuzz's integer rounding on both sides."""
+    import warnings
+    from fontTools.varLib import mutator
+
+    font = corpus.open_bytes(info["bytes"])
+    with warnings.catch_warnings():
+        warnings.simplefilter("ignore")
+        with ctx.lib("mutator.instantiateVariableFont"):
+            inst = mutator.instantiateVariableFont(font, dict(pinned))
+    with ctx.lib("save(mutator instance)"):
+        mb = corpus.save_bytes(inst)
+    M = E.View(mb)
+    ctx.note("mutator-route")
+    ctx.judged()
+    left = [t for t in VAR_TABLES if t in M.tags]
+    if left or M.h.face.has_var_data:
+        ctx.violation({"kind": "not-static", "route": "mutator", "what": "variation tables left", "tables": left},
+                      "varLib.mutator instance still has %s" % left, dict(witness, route="mutator"))
+    nO = O.at_user(pinned)
+    sens, so = E.sensitivity(O, nO, steps, gids, texts, None, metrics=True, rel=is_cff)
+    sm = M.snapshot(gids, texts, None, metrics=True)
+    w = dict(witness, route="varLib.mutator", location=pinned, hb_norm_original=nO)
+    Ohm = None
+    incons = set()
+
+    def deep(gname, depth=0):
+        b = 0.52
+        if depth < 8:
+            for cg, nrm in info["composites"].get(gname, ()):
+                b += nrm * deep(cg, depth + 1)
+        return b
+
+    for g in gids:
+        gname = order[g] if g < len(order) else "gid%d" % g
+        ro, ri = so["out"][g], sm["out"][g]
+        if sens["out"][g] == float("inf"):
+            ctx.skip("outline structure of the original changes within the quantisation neighbourhood")
+        elif is_cff:
+            d = E.rel_dist(ro, ri)
+            ctx.judged()
+            if d is not None:
+                tol = 0.52 + sens["out"][g]
+                bad, why = d > tol + 1e-9, "largest operand difference %.4f" % d
+            else:
+                tol = 0.52 * max(E.npoints(ro), E.npoints(ri), 1) + _abs_sens(O, nO, steps, g, ro)
+                ok, st, why = geom.outlines_match(ro, ri, tol)
+                bad = not ok
+            if bad:
+                ctx.violation({"kind": "instance-differs", "route": "mutator", "what": "outline", "flavour": "CFF2"},
+                              "glyph %s: varLib.mutator instance differs from the original by more than %.3f (%s)" % (gname, tol, why),
+                              dict(w, glyph=gname, original=ro[:10], instance=ri[:10]))
+        else:
+            tol = deep(gname) + sens["out"][g]
+            tol_x = tol + (0.5 if gname in info["phantom_var"] else 0.0)
+            ok, st, why = E.match_xy(ro, ri, tol_x, tol)
+            ctx.judged()
+            if not ok:
+                ctx.violation({"kind": "instance-differs", "route": "mutator", "what": "outline", "flavour": "glyf"},
+                              "glyph %s: varLib.mutator instance differs from the original by more than %.3f (%s; max point diff %s)"
+                              % (gname, tol, why, geom.max_point_diff(ro, ri)), dict(w, glyph=gname, original=ro[:10], instance=ri[:10]))
+        ao, ai = so["adv"][g], sm["adv"][g]
+        if ao == -1 or ai == -1:
+            continue
+        tol = 1.5 + sens["adv"][g]
+        if not is_cff and "HVAR" in O.tags:
+            if Ohm is None:
+                Ohm = _without_hvar(info)
+            Ohm.at_norm(nO)
+            inc = abs(Ohm.h.h_advance(g) - ao)
+            if inc > 1:
+                ctx.skip("original's HVAR disagrees with its gvar phantom points (advance not comparable)")
+                incons.add(g)
+                continue
+            tol += inc + 0.5
+        elif not is_cff:
+            tol += 1.0
+        if ao == 0 and ai != 0:
+            ctx.skip("original advance at the location is zero or negative (not representable in hmtx)")
+            incons.add(g)
+            continue
+        ctx.judged()
+        if abs(ao - ai) > tol + 1e-9:
+            ctx.violation({"kind": "instance-differs", "route": "mutator", "what": "advance", "flavour": "CFF2" if is_cff else "glyf"},
+                          "glyph %s: advance %d in the original, %d in the varLib.mutator instance (budget %.2f)" % (gname, ao, ai, tol), dict(w, glyph=gname))
+    for tag, vo in so["met"].items():
+        vi = sm["met"].get(tag)
+        if vo is None or vi is None or ("MVAR" not in O.tags and vo == vi):
+            continue
+        if tag in E.TYPO_OR_HHEA and not info["use_typo_bit"]:
+            # MVAR defines hasc/hdsc/hlgp on OS/2 only; HarfBuzz reads hhea unless USE_TYPO_METRICS is set, and
+            # varLib.mutator (unlike the instancer) does not mirror the change into hhea
+            continue
+        tol = 1.5 + sens["met"][tag]
+        ctx.judged()
+        if abs(vo - vi) > tol + 1e-9:
+            ctx.violation({"kind": "instance-differs", "route": "mutator", "what": "metric", "tag": tag},
+                          "metric %s: %d in the original, %d in the varLib.mutator instance (budget %.2f)" % (tag, vo, vi, tol), w)
+    for ti, t in enumerate(texts):
+        a, b = so["shape"][ti], sm["shape"][ti]
+        if incons and any(z[0] in incons for z in a):
+            continue
+        same, d = E.shape_dist(a, b)
+        if not same:
+            if tuple(z[0] for z in b) in sens["shape_alt"][ti]:
+                ctx.skip("location within the quantisation neighbourhood of a feature-variation boundary")
+                continue
+            ctx.judged()
+            ctx.violation({"kind": "instance-differs", "route": "mutator", "what": "shaping-glyphs"},
+                          "text gids %s: original shapes to %s, varLib.mutator instance to %s" % ([c - corpus.PUA for c in t][:12], [z[0] for z in a][:16], [z[0] for z in b][:16]), w)
+            continue
+        if sens["shape"][ti] == float("inf"):
+            continue
+        tol = 3.0 + 6 * 1.5 + sens["shape"][ti]
+        ctx.judged()
+        if d > tol + 1e-9:
+            ctx.violation({"kind": "instance-differs", "route": "mutator", "what": "positioning"},
+                          "text gids %s: positions differ by %d between the original and the varLib.mutator instance (budget %.2f)" % ([c - corpus.PUA for c in t][:12], d, tol),
+                          dict(w, original=a[:8], instance=b[:8]))
 
 
 def _featvar_diagnosis(info, O, axes, pinned, eff, inst_bytes):
